@@ -35,6 +35,9 @@ def main():
         rel = am.get("demo_path", rel)
         os.makedirs(os.path.dirname(f"{wt}/{rel}"), exist_ok=True)
         shutil.copy(f"{src}/demo.py", f"{wt}/{rel}")
+        extra = [f for f in os.listdir(src) if f.endswith(".py") and f != "demo.py"]
+        for f in extra:  # helper modules a demo imports from its own directory
+            shutil.copy(f"{src}/{f}", os.path.join(os.path.dirname(f"{wt}/{rel}"), f))
         env = dict(os.environ, PYTHONPATH=wt, PYTHONDONTWRITEBYTECODE="1", PYTHONHASHSEED="0")
         rc0, before = sh(f"/venv/bin/python {rel} 2>/dev/null", cwd=wt, env=env, timeout=900)
         rca, oa = sh(f"git apply --exclude='REFACTOR/*' {src}/patch.diff", cwd=wt)
@@ -59,6 +62,8 @@ def main():
         os.makedirs(dst, exist_ok=True)
         shutil.copy(f"{src}/patch.diff", f"{dst}/patch.diff")
         shutil.copy(f"{src}/demo.py", f"{dst}/demo.py")
+        for f in extra:
+            shutil.copy(f"{src}/{f}", f"{dst}/{f}")
         open(f"{dst}/out_before.txt", "w").write(before)
         verdict = "FALSE-ALARM" if viol else ("cannot-decide" if errs else "silent")
         meta = {"id": rid, "property": prop, "origin": "independent sub-agent given only the property text and a scratch worktree of /repo",
